@@ -226,7 +226,18 @@ func c08check(w *Worker, pool *c08pool, r *Rng, idx int64) (produced string) {
 					vals = append(vals, e)
 				}
 			}
-			if r.Chance(1, 6) {
+			if r.Chance(1, 8) {
+				// a redactable byte slice as the operand itself is a slice of bytes like any other: its bytes are joined
+				rb := redact.RedactableBytes(pool.pick(r))
+				if len(rb) > 12 {
+					rb = redact.RedactableBytes(startM + "x" + endM)
+				}
+				operand = rb
+				vals = vals[:0]
+				for _, b := range []byte(rb) {
+					vals = append(vals, b)
+				}
+			} else if r.Chance(1, 6) {
 				// not a slice: printed as it is, wrapper included
 				operand = []interface{}{redact.Unsafe(interfaces.SafeString("tok")), redact.Safe("plain" + startM), redact.Unsafe(redact.RedactableString(pool.pick(r))), 42, nil, redact.Unsafe(tStringer{"s"}), tS2{redact.Safe(1), 2}}[r.Intn(7)]
 				vals = []interface{}{operand}
